@@ -297,7 +297,13 @@ where
     }
 
     pub fn entry(&'_ mut self, key: Handle) -> Entry<'_, T> {
-        let ind = self.find_ind(key);
+        let mut ind = self.find_ind(key);
+        // a vacant entry may be filled by the caller: make room for it now, like `insert` does
+        let is_vacant = unsafe { *self.handles.as_ptr().add(ind) != key };
+        if is_vacant && (self.count + 1) as f32 > self.capacity as f32 * MAX_LOAD {
+            self.grow().expect("Failed to grow the table");
+            ind = self.find_ind(key);
+        }
 
         let pl = unsafe {
             if *self.handles.as_ptr().add(ind) != key {
